@@ -8,7 +8,7 @@ from .. import gencorr, runner, valcases
 from ..common import REPO, VERIF
 
 MODULE = "D42.Props.C17"
-THEOREMS = []
+THEOREMS = ["gen_no_lookahead", "gen_log_independent", "genMany_no_lookahead", "gen_prefix_determined"]
 FILES = ["D42/Model/Gen.lean", "D42/Props/C17.lean"]
 
 EVIDENCE = dict(
